@@ -193,6 +193,7 @@ impl<'o> P<'o> {
                     self.t(")");
                 }
             }
+            Lit('\u{1b}') if self.opts.short_escapes => self.t("\\e"),
             Lit(c) => {
                 self.nlit += 1;
                 let style = if self.opts.lit_style == 5 { (self.nlit % 5) as u8 } else { self.opts.lit_style };
@@ -221,7 +222,6 @@ impl<'o> P<'o> {
             Class(neg, rs) if self.opts.short_escapes && *rs == [('0', '9'), ('A', 'F'), ('a', 'f')] => {
                 self.t(if *neg { "\\H" } else { "\\h" });
             }
-            Lit('\u{1b}') if self.opts.short_escapes => self.t("\\e"),
             Class(neg, rs) => {
                 let mut s = String::from("[");
                 if *neg {
@@ -631,6 +631,44 @@ impl Node {
     /// quantifier targets must be repeatable for the crate's parser
     pub fn repeatable(&self) -> bool {
         !matches!(self, Empty | Assert(_) | Look(..) | SetFlags(..))
+    }
+
+    /// Number of characters every match of this expression has, when that follows from the syntax alone
+    /// (conservative: None whenever unsure). Independent of the crate's analysis.
+    pub fn fixed_char_len(&self) -> Option<usize> {
+        match self {
+            Empty | Assert(_) | KeepOut | ContG | Look(..) | GroupExists(_) | SetFlags(..) => Some(0),
+            Lit(_) | Any | AnyNl | Class(..) | Perl(_) => Some(1),
+            Raw(p, _) => Some(if p == "\\n*$" { 0 } else { 1 }),
+            Concat(v) => v.iter().map(|c| c.fixed_char_len()).sum(),
+            Alt(v) => {
+                let first = v.first()?.fixed_char_len()?;
+                if v.iter().all(|c| c.fixed_char_len() == Some(first)) {
+                    Some(first)
+                } else {
+                    None
+                }
+            }
+            Group(c) | Atomic(c) | Flags(_, _, c) => c.fixed_char_len(),
+            Repeat(c, lo, Some(hi), _) if lo == hi => Some(c.fixed_char_len()? * *lo as usize),
+            Repeat(..) | Backref(_) => None,
+            CondGroup(_, y, no) => {
+                let a = y.fixed_char_len()?;
+                if no.fixed_char_len() == Some(a) {
+                    Some(a)
+                } else {
+                    None
+                }
+            }
+            CondExpr(c, y, no) => {
+                let a = c.fixed_char_len()? + y.fixed_char_len()?;
+                if no.fixed_char_len() == Some(a) {
+                    Some(a)
+                } else {
+                    None
+                }
+            }
+        }
     }
 
     /// F25 class: a counted repeat (upper bound >= 2) over a body that can match the empty string, nested inside
